@@ -167,7 +167,7 @@ package zygo
 
 //@ func (*Zlisp).NewStack
 //@ C01,C15,C19 pure
-//@ C01,C15,C19 ensures fresh(r0) && wfs(r0) && r0.tos == -1 && r0.env == env && !r0.IsPackage
+//@ C01,C15,C19 ensures fresh(r0) && wfs(r0) && r0.tos == -1 && r0.env == env && !r0.IsPackage && fresh(sarr(r0.elements))
 
 //@ func (*Stack).Size
 //@ C01,C02 pure
@@ -201,7 +201,7 @@ package zygo
 //@ C01 nopanic
 //@ C01 modifies stack.tos, stack.elements, elems(stack.elements)
 //@ C01 ensures ok: r1 == nil ==> wfs(stack) && old(stack.tos) >= 0 && stack.tos == old(stack.tos) - 1 && r0 == old(stack.elements[stack.tos])
-//@ C01 ensures keeps: r1 == nil ==> forall(k, 0 <= k && k <= stack.tos ==> stack.elements[k] == old(stack.elements[k]))
+//@ C01,C15 ensures keeps: r1 == nil ==> forall(k, 0 <= k && k <= stack.tos ==> stack.elements[k] == old(stack.elements[k]))
 //@ C01 ensures underflow: r1 != nil ==> old(stack.tos) < 0 && stack.tos == old(stack.tos) && len(stack.elements) == old(len(stack.elements))
 
 //@ func (*Stack).TruncateToSize
@@ -297,8 +297,8 @@ package zygo
 //@ assume ensures keq: iff(r1 == nil && r0 == 0, keq(a, b))
 
 //@ func Cons
-//@ C14 pure
-//@ C14 ensures fresh(r0) && r0.Head == a && r0.Tail == b
+//@ C14,C15 pure
+//@ C14,C15 ensures fresh(r0) && r0.Head == a && r0.Tail == b
 
 //@ func Sexp.SexpString
 //@ assume pure
@@ -463,16 +463,17 @@ package zygo
 // data-stack helpers (datastack.go)
 //@ func (*Stack).PushExpr
 //@ requires typeinv[Stack] wfs(stack)
-//@ C02,C04,C05 modifies stack.tos, stack.elements, elems(stack.elements)
-//@ C02,C04,C05 ensures wfs(stack) && stack.tos == old(stack.tos) + 1
-//@ C04 ensures top: typeis(stack.elements[stack.tos], DataStackElem) && stack.elements[stack.tos].(DataStackElem).expr == expr
+//@ C02,C04,C05,C15 modifies stack.tos, stack.elements, elems(stack.elements)
+//@ C02,C04,C05,C15 ensures wfs(stack) && stack.tos == old(stack.tos) + 1
+//@ C04,C15 ensures top: typeis(stack.elements[stack.tos], DataStackElem) && stack.elements[stack.tos].(DataStackElem).expr == expr
 
 //@ func (*Stack).PopExpr
 //@ requires typeinv[Stack] wfs(stack)
-//@ C02,C04,C05 modifies stack.tos, stack.elements, elems(stack.elements)
-//@ C02,C04,C05 ensures ok: r1 == nil ==> wfs(stack) && old(stack.tos) >= 0 && stack.tos == old(stack.tos) - 1
-//@ C02,C04,C05 ensures underflow: r1 != nil ==> old(stack.tos) < 0 && stack.tos == old(stack.tos)
-//@ C02,C04 ensures value: r1 == nil ==> r0 == old(stack.elements[stack.tos].(DataStackElem).expr)
+//@ C02,C04,C05,C15 modifies stack.tos, stack.elements, elems(stack.elements)
+//@ C02,C04,C05,C15 ensures ok: r1 == nil ==> wfs(stack) && old(stack.tos) >= 0 && stack.tos == old(stack.tos) - 1
+//@ C02,C04,C05,C15 ensures underflow: r1 != nil ==> old(stack.tos) < 0 && stack.tos == old(stack.tos)
+//@ C15 ensures keeps: r1 == nil ==> forall(k, 0 <= k && k <= stack.tos ==> stack.elements[k] == old(stack.elements[k]))
+//@ C02,C04,C15 ensures value: r1 == nil ==> old(typeis(stack.elements[stack.tos], DataStackElem)) && r0 == old(stack.elements[stack.tos].(DataStackElem).expr)
 
 //@ func functionSize
 //@ C05 pure
@@ -1048,3 +1049,44 @@ package zygo
 //@ requires typeinv[Stack] wfs(env.datastack)
 //@ C02 ensures one-rest-value: r0 == nil && fnargs >= 0 ==> nargs >= fnargs && env.datastack.tos == old(env.datastack.tos) - (nargs - fnargs) + 1
 //@ C02 ensures too-few: nargs < fnargs ==> r0 != nil && env.datastack.tos == old(env.datastack.tos)
+
+// ===========================================================================
+// C15  macro templates and macro expansion
+// ===========================================================================
+// Expansion runs in a duplicate interpreter with its own stacks; the caller's
+// stacks, program counter and current function are not touched by making it,
+// and what gets compiled in place of the macro call is the form the macro returned.
+//@ func (*Zlisp).Duplicate
+//@ C15 pure
+//@ C15 ensures own-stacks: fresh(r0) && fresh(r0.datastack) && fresh(r0.linearstack) && fresh(r0.addrstack) && fresh(r0.loopstack)
+//@ |  && r0.datastack.tos == 0 - 1 && r0.addrstack.tos == 0 - 1 && r0.linearstack.tos == 0 && r0.linearstack.elements[0] == old(env.linearstack.elements[0])
+//@ C15 ensures caller-untouched: env.datastack == old(env.datastack) && env.linearstack == old(env.linearstack) && env.addrstack == old(env.addrstack) && env.pc == old(env.pc) && env.curfunc == old(env.curfunc)
+//@ |  && env.datastack.tos == old(env.datastack.tos) && env.linearstack.tos == old(env.linearstack.tos) && env.addrstack.tos == old(env.addrstack.tos)
+//@ C15 ensures same-macros: r0.macros == old(env.macros) && env.macros == old(env.macros)
+//@ func (*Generator).GenerateCallBySymbol
+//@ ghost expansion := ret0 @after call Apply[0]
+//@ C15 assert expands-in-a-duplicate @before call Apply[0]: fresh(arg0) && arg0 != gen.env && arg1 == gen.env.macros[sym.number] && same(arg2, args)
+//@ C15 assert compiles-the-expansion @before call Generate[0]: arg0 == gen && arg1 == expansion
+//@ func (*Generator).GenerateMacexpand
+//@ C15 assert expands-in-a-duplicate @before call Apply[0]: fresh(arg0) && arg0 != gen.env
+
+// Template compilation. A list template is: marker, its elements in order, squash;
+// (unquote x) is x itself, (unquote-splicing x) is x followed by explode.
+//@ func (*Generator).generateSyntaxQuoteList
+//@ C15 assert unquote-is-the-expression @before call Generate[0]: arg0 == gen && len(gen.instructions) == old(len(gen.instructions))
+//@ C15 assert splice-explodes @before call AddInstruction[0]: arg0 == gen && typeis(arg1, ExplodeInstr)
+//@ C15 assert opens-with-marker @before call AddInstruction[1]: arg0 == gen && typeis(arg1, PushInstr) && arg1.(PushInstr).expr == SexpMarker && len(gen.instructions) == old(len(gen.instructions))
+//@ C15 assert closes-with-squash @before call AddInstruction[2]: arg0 == gen && typeis(arg1, SquashInstr)
+//@ C15 assert one-element-at-a-time @before call GenerateSyntaxQuote[0]: arg0 == gen && len(arg1) == 1
+
+// squash collapses the stack down to the nearest marker and leaves one value in its place
+//@ func (SquashInstr).Execute
+//@ requires typeinv[Zlisp] distinctStacks(env)
+//@ requires typeinv[Stack] wfs(env.datastack)
+//@ C15 ensures to-nearest-marker: r0 == nil ==> env.datastack.tos <= old(env.datastack.tos) && env.datastack.tos >= 0
+//@ |  && let(t, env.datastack.tos, old(env.datastack.elements[t].(DataStackElem).expr) == SexpMarker)
+//@ |  && forall(k, env.datastack.tos < k && k <= old(env.datastack.tos) ==> old(env.datastack.elements[k].(DataStackElem).expr) != SexpMarker)
+//@ C15 ensures one-step: r0 == nil ==> env.pc == old(env.pc) + 1
+//@ C15 loop 0 invariant shape: env.datastack == old(env.datastack) && wfs(env.datastack) && env.datastack.tos <= old(env.datastack.tos) && env.datastack.tos >= 0 - 1 && env.pc == old(env.pc)
+//@ C15 loop 0 invariant no-marker-above: forall(k, env.datastack.tos < k && k <= old(env.datastack.tos) ==> old(env.datastack.elements[k].(DataStackElem).expr) != SexpMarker)
+//@ C15 loop 0 invariant below-kept: forall(k, 0 <= k && k <= env.datastack.tos ==> env.datastack.elements[k] == old(env.datastack.elements[k]))
